@@ -37,7 +37,7 @@ Print Assumptions sloppy_phrase_on_example_index.
    Proved here: the conjunction and the slice disjunction (any number of children, any min).
    Not yet assembled into the tree theorem: boolean, heap disjunction, phrase, the leaves over
    index/postings.go (validated by the script correspondence on every run). ---- *)
-From Bluge Require Import Search.SearchersProofsBase Search.SearchersProofsConj Search.SearchersProofsDisj Search.SearchersProofsBool Search.SearchersProofsLeaf.
+From Bluge Require Import Search.SearchersProofsBase Search.SearchersProofsConj Search.SearchersProofsDisj Search.SearchersProofsBool Search.SearchersProofsLeaf Search.SearchersProofsSnap Search.SearchersProofsExact.
 
 Theorem searcher_spec_conjunction_partial :
   forall (C : Type) (cnext : C -> res (option dmatch * C)) (cadv : C -> Z -> res (option dmatch * C))
@@ -112,3 +112,35 @@ Theorem searcher_spec_postings_leaf_partial :
        exists it', pit_advance it n = Ok (None, it') /\ PFin offs N it' S lo).
 Proof. exact (fun offs N => conj (pit_next_exact offs N) (conj (pit_advance_exact offs N) (pit_fin_advance offs N))). Qed.
 Print Assumptions searcher_spec_postings_leaf_partial.
+
+(* search_exact (DESIGN.md C07), full statement:
+     forall sn q, wf_sn sn -> run sn copts_default q = Ok (sem_numbers q sn)
+   (no live match missed, no deleted or non-matching document, none twice, in increasing order,
+   never Panic / OutOfFuel).
+   Proved here for every boolean query whose clauses are term queries — any number of must
+   clauses, up to DisjunctionHeapTakeover (10) should and must-not clauses (slice disjunction),
+   any minShould >= 0 — over every well-formed snapshot (any number of non-empty segments, any
+   pending deletions), with the default options (the "conjunction" push-down of index/optimize.go
+   included: every term child then keeps exactly the documents all must clauses hold) and with
+   the push-down switched off.  The fuel `run` provides is shown sufficient (the result is Ok).
+   Not covered: nested booleans (the Advance of a nested boolean), phrase, multi-term leaves,
+   heap disjunctions, match-all, scoring "none" (refuted for min-should: see C08). *)
+Theorem search_exact_partial : forall sn musts shoulds nots ms,
+  wf_sn sn -> 0 <= ms -> (musts <> [] \/ shoulds <> []) ->
+  (length shoulds <= 10)%nat -> (length nots <= 10)%nat ->
+  run sn copts_default (flatq musts shoulds nots ms) = Ok (sem_numbers (flatq musts shoulds nots ms) sn).
+Proof. exact search_exact_flat_default. Qed.
+Print Assumptions search_exact_partial.
+
+Theorem search_exact_pushdown_off_partial : forall sn musts shoulds nots ms,
+  wf_sn sn -> 0 <= ms -> (musts <> [] \/ shoulds <> []) ->
+  (length shoulds <= 10)%nat -> (length nots <= 10)%nat ->
+  run sn copts_plain (flatq musts shoulds nots ms) = Ok (sem_numbers (flatq musts shoulds nots ms) sn).
+Proof. exact search_exact_flat. Qed.
+Print Assumptions search_exact_pushdown_off_partial.
+
+Example search_exact_hypotheses_hold :
+  wf_sn ex_sn /\
+  run ex_sn copts_plain (flatq [(0, t_ab)] [(0, t_ba); (0, t_cab)] [(0, [122])] 1) = Ok [0; 2; 3].
+Proof. exact search_exact_flat_example. Qed.
+Print Assumptions search_exact_hypotheses_hold.
